@@ -131,6 +131,15 @@ func renderInit(st *sStream) []byte {
 
 func renderFMP4Segment(st *sStream, sg *sSeg, seqBase *uint32) []byte {
 	var out []byte
+	for _, f := range renderFMP4Fragments(st, sg, seqBase) {
+		out = append(out, f...)
+	}
+	return out
+}
+
+// renderFMP4Fragments renders the fragments (moof+mdat) of a segment one by one.
+func renderFMP4Fragments(st *sStream, sg *sSeg, seqBase *uint32) [][]byte {
+	var out [][]byte
 	nf := sg.frags
 	if nf < 1 {
 		nf = 1
@@ -165,7 +174,7 @@ func renderFMP4Segment(st *sStream, sg *sSeg, seqBase *uint32) []byte {
 		if err := part.Marshal(&buf); err != nil {
 			panic(fmt.Sprintf("stub origin: part marshal: %v", err))
 		}
-		out = append(out, buf.Bytes()...)
+		out = append(out, append([]byte(nil), buf.Bytes()...))
 	}
 	return out
 }
